@@ -187,3 +187,18 @@ PROPS["C05"] = dict(
         dict(name="fuzz", fuzz="FuzzLogfmt", fuzztime=180),
     ],
 )
+
+PROPS["C07"] = dict(
+    pkg="c07", level="exploration",
+    technique="property-based testing (rapid) of generated logger chains / context keys / colliding attribute lists against a reference merge, decoded with the independent JSON and logfmt parsers",
+    claim=("Generated scenarios (chain depth 1-4 with possibly empty own-attribute lists set in four different ways, inherit flag on/off, 0-3 "
+           "string/Stringer context keys present or absent, context / nil context / non-context verbs, call lists of 0-64 attributes over a tiny "
+           "key alphabet with groups containing duplicates, three formats) are logged and the decoded record must equal the reference merge: "
+           "context values, ancestors outermost first iff the flag, own, call; last occurrence wins; ascending key order at every level."),
+    note="Values are unique small ints/strings so that the winning occurrence is identifiable; relies on the C04/C05 decoders for plain ints and strings only; colored records are stripped of SGR sequences and the attribute region is tokenised.",
+    rule=("rapid draws the scenario; about half of the call lists have >= 13 entries (stability threshold of the sort). Non-trivial: at least two "
+          "sources contribute the same key, or >= 13 attributes with a duplicate, or a parent contributes while the logging logger has no own "
+          "attributes; distinct = (format, flag, context mode, class set, chain depth, number of source attributes)."),
+    assumptions=["merge order stated in the property: context < ancestors (outermost first) < own < call"],
+    stages=[dict(name="assembly", run="^TestAssembly$", quick=25000, thorough=1000000, shards=16, timeout_thorough=3000)],
+)
